@@ -198,6 +198,14 @@ def run(ctx, chk):
     chk.extra["assertions_harvested"] = total_asserts
     chk.extra["assertions_entry_type_width_flavour"] = sum(1 for v in H.values() for a in v if a.get("entry") and a["kind"] != "other")
 
+    # 7b. releasing a decoded tree is itself memory-safe (shared with C04.release)
+    chk.rule("C01.release-safe", "cbor_decref frees each block once, never an interior pointer, the item last, and reads nothing "
+                                 "from a block it has already freed")
+    chk.rule("C01.release-exhaustive", "the release switch covers every cbor_type")
+    from props.c04 import check_release
+    import rules as _rules
+    check_release(chk, prog, eff, cache, tables.constructors(prog, eff), _rules.item_offsets(prog), R="C01.release-safe", RX="C01.release-exhaustive")
+
     # 8. NULL discipline
     N = O.Nullness(prog, eff, cache)
     nn = 0
